@@ -991,3 +991,92 @@ func c17DCrossCheck(ctx *Ctx, res *Result, sb *strings.Builder) int {
 	}
 	return n
 }
+
+// ---------- exhaustive small domain ----------
+
+// c17DAlphabet: the lines of the exhaustive enumeration (one file, two variables)
+func c17DAlphabet() []c17DLine {
+	var al []c17DLine
+	for _, v := range []string{"VA", "VB"} {
+		for _, op := range []string{"=", "?="} {
+			al = append(al, c17DLine{Kind: "assign", Var: v, Op: op, Val: []c17Chunk{{false, "a"}}})
+		}
+	}
+	al = append(al,
+		c17DLine{Kind: "assign", Var: "VA", Op: "=", Val: []c17Chunk{{false, "b"}}},
+		c17DLine{Kind: "assign", Var: "VB", Op: "=", Val: []c17Chunk{{true, "VA"}}},
+		c17DLine{Kind: "assign", Var: "VB", Op: ":=", Val: []c17Chunk{{false, "a"}}},
+		c17DLine{Kind: "undef", Names: []string{"VA"}},
+		c17DLine{Kind: "if", Cond: "defined", CVar: "VA"},
+		c17DLine{Kind: "if", Cond: "defined", Neg: true, CVar: "VA"},
+		c17DLine{Kind: "if", Cond: "defined", Neg: true, CVar: "G_MK"},
+		c17DLine{Kind: "if", Cond: "empty", CVar: "VB"},
+		c17DLine{Kind: "else"},
+		c17DLine{Kind: "endif"},
+		c17DLine{Kind: "for", N: 2},
+		c17DLine{Kind: "endfor"},
+		c17DLine{Kind: "comment", Raw: "# c"},
+	)
+	return al
+}
+
+// every sequence of exactly n lines of the alphabet (also unbalanced ones: the
+// code must not panic, make aborts, nothing is deletable or everything is)
+func c17DEnumerate(n int, emit func(c17DProg)) {
+	al := c17DAlphabet()
+	idx := make([]int, n)
+	for {
+		p := c17DProg{Files: []string{"cat/pa/Makefile"}}
+		for k, i := range idx {
+			l := al[i]
+			l.File, l.Lineno = 0, k+1
+			p.Lines = append(p.Lines, l)
+		}
+		emit(p)
+		k := n - 1
+		for k >= 0 {
+			idx[k]++
+			if idx[k] < len(al) {
+				break
+			}
+			idx[k] = 0
+			k--
+		}
+		if k < 0 {
+			return
+		}
+	}
+}
+
+func c17DExhaustive(ctx *Ctx, res *Result, spec c17ShardSpec) {
+	maxn := 4
+	if ctx.Tier == "thorough" {
+		maxn = 5
+	}
+	ord := 0
+	var cases []c17DCase
+	flush := func() {
+		if len(cases) > 0 {
+			c17DJudge(ctx, res, cases)
+			cases = cases[:0]
+		}
+	}
+	for n := 1; n <= maxn; n++ {
+		c17DEnumerate(n, func(p c17DProg) {
+			ord++
+			if ord%spec.Of != spec.Index {
+				return
+			}
+			res.Evaluations += 2
+			res.Count("dir_exhaustive_programs", 1)
+			out, pan := c17DRunShim(p, false)
+			cases = append(cases, c17DCase{nil, "file", p, p, out, pan})
+			out, pan = c17DRunShim(p, true)
+			cases = append(cases, c17DCase{nil, "pkg", p, p, out, pan})
+			if len(cases) >= 20000 {
+				flush()
+			}
+		})
+	}
+	flush()
+}
